@@ -34,6 +34,18 @@ func verifHTTPStore(rt http.RoundTripper, opt StoreOptions) *RemoteHTTP {
 
 var verifTransportErr = errors.New("verif: connection reset")
 
+// verifShortBody delivers one byte and then fails like a connection that died mid-body.
+type verifShortBody struct{ n int }
+
+func (b *verifShortBody) Read(p []byte) (int, error) {
+	if b.n == 0 && len(p) > 0 {
+		b.n++
+		p[0] = 0x61
+		return 1, nil
+	}
+	return 0, io.ErrUnexpectedEOF
+}
+
 // VerifC14_Retry: a scripted sequence of server responses (status or transport error per
 // attempt, chosen by the solver) against GetChunk / HasChunk / StoreChunk.
 func VerifC14_Retry() {
@@ -45,8 +57,11 @@ func VerifC14_Retry() {
 	rt := &verifRT{}
 	rt.f = func(r *http.Request) (*http.Response, error) {
 		if rt.calls <= nfail {
-			if verifSymChoice("failure-kind", 2) == 0 {
+			switch verifSymChoice("failure-kind", 3) {
+			case 0: // the connection fails before a response arrives
 				return nil, verifTransportErr
+			case 1: // the response is cut off in the middle of the body
+				return &http.Response{StatusCode: 200, Body: ioutil.NopCloser(&verifShortBody{}), Header: http.Header{}}, nil
 			}
 			return verifResp(500+vChoose("5xx", 2)*3, nil), nil
 		}
@@ -236,15 +251,30 @@ func VerifC14_Protocol() {
 	}
 }
 
-// VerifC03_Protocol: arbitrary reply bytes on the wire; a delivered chunk hashes to the ID.
+// VerifC03_Protocol: arbitrary reply bytes on the wire, or a self-consistent chunk message
+// that belongs to another chunk (a stale / out-of-order reply); a delivered chunk hashes to
+// the requested ID.
 func VerifC03_Protocol() {
-	n := 16 + 40 + vChoose("payload", 7)
-	reply := vBytes("reply", n)
-	// a length-consistent message (hostile lengths are the subject of C19)
-	copy(reply, verifLE64(uint64(n)))
+	id := NewChunk([]byte{0x61, 0x62}).ID()
+	var reply []byte
+	if vChoose("reply-kind", 2) == 0 {
+		n := 16 + 40 + vChoose("payload", 7)
+		reply = vBytes("reply", n)
+		// a length-consistent message (hostile lengths are the subject of C19)
+		copy(reply, verifLE64(uint64(n)))
+	} else {
+		// a well-formed CHUNK message for whatever data the solver picks, labelled with that data's own ID
+		data := vBytes("other-chunk", 2)
+		label := Digest.Sum(data)
+		payload, _ := Compress(data)
+		reply = append(reply, verifLE64(uint64(16+40+len(payload)))...)
+		reply = append(reply, verifLE64(CaProtocolChunk)...)
+		reply = append(reply, verifLE64(CaProtocolChunkCompressed)...)
+		reply = append(reply, label[:]...)
+		reply = append(reply, payload...)
+	}
 	cl := NewProtocol(bytes.NewReader(reply), &bytes.Buffer{})
 	cl.initialized = true
-	id := NewChunk([]byte{0x61, 0x62}).ID()
 	c, err := cl.RequestChunk(id)
 	vCover("request-returned")
 	verifDelivered(id, c, err, "Protocol.RequestChunk")
